@@ -26,7 +26,9 @@ import (
 // points tars.ServerConfigPath at it and returns the server side's TLS configuration and a
 // cleanup function.
 func Setup(name string) (*tls.Config, func(), error) {
-	dir, err := os.MkdirTemp("", "verif-tls-"+name)
+	// inside the driver's per-run scratch directory when there is one (the driver removes it
+	// whatever way the test process ends)
+	dir, err := os.MkdirTemp(os.Getenv("VERIF_TMP"), "verif-tls-"+name)
 	if err != nil {
 		return nil, nil, err
 	}
